@@ -143,7 +143,7 @@ func init() {
 	mc.Register(&mc.Check{
 		ID:    "C05",
 		Level: "exploration",
-		Rule:  "E1 exhaustive: (a) every sequence of <= L symbols over a 34-symbol alphabet (6 keywords as units, all 12 punctuation marks, quotes, backtick, space, TAB, CR, LF, newline+indent, a name, a digit, + = #, NUL, U+0085, an astral character); (b) for every program of a corpus of valid renderings: truncation at every offset, deletion and duplication of every rune, insertion of every alphabet symbol at every offset (and all pairs of deletions on a subset); (c) the same inputs through ExecVarInputText (termination). Oracle: terminates (watchdog), returns a tree xor a *SyntaxError with code != 0 and 0 <= position <= length, any returned tree passes the completeness walker, DisplayError succeeds and quotes a line of the source. Distinct by construction; non-trivial = not parsed successfully or longer than one symbol.",
+		Rule:  "E1 exhaustive: (a) every sequence of <= L symbols over a 34-symbol alphabet (6 keywords as units, all 12 punctuation marks, quotes, backtick, space, TAB, CR, LF, newline+indent, a name, a digit, + = #, NUL, U+0085, an astral character); (b) for every program of a corpus of valid renderings: truncation at every offset, deletion and duplication of every rune, insertion of every alphabet symbol at every offset (and all pairs of deletions on a subset); (c) the same inputs through ExecVarInputText (termination); (d) long lines: 14 faulty tails behind 6 kinds of padding (a long text, a long name, a long sum, blanks, a long comment, a long list) of every width 0..160 (0..400 thorough) on the only line, on the last line and on a middle line. Oracle: terminates (watchdog), returns a tree xor a *SyntaxError with code != 0 and 0 <= position <= length, any returned tree passes the completeness walker, DisplayError succeeds and quotes a line of the source. Distinct by construction; non-trivial = not parsed successfully or longer than one symbol.",
 		Assumptions: []string{
 			"a recovered Go runtime error leaking out of Parser.Parse as the error value is counted as a violation (it is not a syntax error with a position)",
 			"hang = no result for 20 s on an input whose normal cost is microseconds; confirmed in a fresh process",
@@ -281,6 +281,71 @@ func c05Run(c *mc.Ctx) {
 		c.Stat("corpus_programs", int64(len(corpus)))
 	}
 	c.Bound("corpus_mutations", fmt.Sprintf("complete over %d programs", len(corpus)))
+
+	// (d) long lines: every faulty tail at every column 0..K behind every kind of padding
+	K := 160
+	if c.Tier == "thorough" {
+		K = 400
+	}
+	base = idx + 1
+	total := int64(len(c05Tails) * c05PadKinds * 3 * (K + 1))
+	c.Describe = func(i int64) json.RawMessage {
+		s := c05LongLine(i-base, K)
+		return mc.J(c05Case{Part: "long-line", Source: string(s), Runes: toInts(s)})
+	}
+	for k := int64(0); k < total; k++ {
+		if !c.Mine(base + k) {
+			continue
+		}
+		if k&0xFFF == 0 && c.Expired() {
+			c.Note("deadline hit in long lines")
+			return
+		}
+		c.CaseIdx(base + k)
+		report(c05Check(c05LongLine(k, K), "long-line"))
+		c.Eval(true)
+		c.Stat("long_line_cases", 1)
+	}
+	c.Bound("long_lines", fmt.Sprintf("complete: %d faulty tails x %d paddings x 3 line positions x every padding width 0..%d", len(c05Tails), c05PadKinds, K))
+}
+
+// faulty fragments put at the end of a long line
+var c05Tails = []string{"）", "“abc", "#", "？", "令", "如果甲", "【1，", "（显示：", "甲 = ", "》", "`x", "\x00", "甲 乙", "输出1 +"}
+
+const c05PadKinds = 6
+
+// c05LongLine builds case k: tail x padding kind x line position x padding width.
+func c05LongLine(k int64, K int) []rune {
+	w := int(k % int64(K+1))
+	k /= int64(K + 1)
+	pos := int(k % 3)
+	k /= 3
+	kind := int(k % c05PadKinds)
+	k /= c05PadKinds
+	tail := c05Tails[int(k)%len(c05Tails)]
+	var pad string
+	switch kind {
+	case 0:
+		pad = "令乙 = “" + strings.Repeat("x", w) + "”；"
+	case 1:
+		pad = "令" + strings.Repeat("丙", w+1) + " = 1；"
+	case 2:
+		pad = "输出1" + strings.Repeat(" + 1", w/4) + strings.Repeat(" ", w%4) + "；"
+	case 3:
+		pad = "令乙 = 1；" + strings.Repeat(" ", w)
+	case 4:
+		pad = "/* " + strings.Repeat("注", w) + " */"
+	case 5:
+		pad = "令乙 = 【" + strings.Repeat("“字”，", w/4) + "1】；" + strings.Repeat("\t", w%4)
+	}
+	line := pad + tail
+	switch pos {
+	case 1:
+		line = "令甲 = 1\n" + line
+	case 2:
+		line = "令甲 = 1\n" + line + "\n输出甲"
+	}
+	return []rune(line)
 }
 
 func c05Sig(f *mc.Failure) string { return "" }
